@@ -237,7 +237,7 @@ def r_energy(ctx, model):
         text = files["out.dat"].text if "out.dat" in files else ""
         ctx.check(bool(text) and opened and opened[0] == ("out.dat", "w"), f"write_energy writes one file, truncating ({label})", w, expected="open(fname, 'w')", found=str(opened),
                   explanation="the writer does not create its file in truncate mode", key=f"energy.write.{label[:7]}")
-        ev2 = Ev(model, {}, io_intrinsics({"out.dat": text}, []), ctx=ctx)
+        ev2 = Ev(model, {}, {**io_intrinsics({"out.dat": text}, []), **text_table_intrinsics()}, ctx=ctx)
         try:
             back = ev2.call_def(rf, model.mods[QI], f"{QI}:read_energy", ["out.dat"], {})
         except RaisedV as e:
@@ -311,6 +311,11 @@ class ParsedRows:
         raise ev.err(f"attribute {name} of a parsed text table", node, mod)
 
 
+def _float_dtype_ok(v):
+    name = v if isinstance(v, str) or v is None else getattr(v, "name", repr(v))
+    return v is None or any(t in str(name) for t in ("float", "double"))
+
+
 def text_table_intrinsics():
     from ..sym import lib_float
 
@@ -344,7 +349,35 @@ def text_table_intrinsics():
             rows.append(Tup(vals, "list"))
         return ParsedRows(rows)
 
-    return {"io.StringIO": stringio, "pandas.read_table": read_table, "pandas.read_csv": read_table,
+    def loadtxt(ev, a, k):
+        """numpy.loadtxt(list of lines, dtype=float[, ndmin]): whitespace-separated numbers; a single row (or column) is squeezed to one dimension unless ndmin asks otherwise"""
+        from ..sym import ArrV
+        src_ = a[0]
+        lines_ = [l for l in (ev.iterate(src_, None, None) if not isinstance(src_, TextBuffer) else src_.text.splitlines()) if isinstance(l, str) and l.strip()]
+        if not _float_dtype_ok(k.get("dtype", a[1] if len(a) > 1 else None)):
+            raise AnalysisError("numpy.loadtxt with a non-floating dtype")
+        for other in ("comments", "delimiter", "converters", "skiprows", "usecols", "unpack", "max_rows"):
+            if k.get(other) is not None and not (other == "unpack" and k.get(other) is False):
+                raise AnalysisError(f"numpy.loadtxt with {other}=")
+        ndmin = k.get("ndmin", sp.Integer(0))
+        ndmin = int(ndmin) if ndmin is not None else 0
+        rows = [[lib_float(ev, [tok], {}, None, None) for tok in l.split()] for l in lines_]
+        if not rows or len({len(r) for r in rows}) != 1:
+            raise RaisedV("ValueError")
+        nr, nc = len(rows), len(rows[0])
+        shape = [nr, nc]
+        if ndmin < 2:
+            shape = [d for d in shape if d != 1]                # squeeze
+            while len(shape) < ndmin:
+                shape.insert(0, 1)
+        out = ArrV(0, tuple(shape))
+        flat = [v for r in rows for v in r]
+        import itertools as _it
+        for key, v in zip(_it.product(*[range(d) for d in shape]), flat):
+            out.cells[key] = v
+        return out if shape else flat[0]
+
+    return {"io.StringIO": stringio, "pandas.read_table": read_table, "pandas.read_csv": read_table, "numpy.loadtxt": loadtxt, "numpy.genfromtxt": loadtxt,
             "parsedrows.same": lambda ev, a, k: (k.all() if hasattr(k, "all") else None, a[0])[1],
             "parsedrows.tolist": lambda ev, a, k: Tup(list(a[0].rows), "list")}
 
